@@ -76,16 +76,44 @@ def lambda_rule(ctx, facts):
             ctx.violation("LAMBDA", fid, "foreign sampler", hirq.loc(bad[0]), "a truncated-exponential draw does not use self.exp01: %s" % hirq.show(bad[0])[:60])
 
 
+def _ev_with_lets(fn, e, env):
+    """symeval.ev with the immutable `let`s of the function resolved on demand (they depend only on the parameter and the loop variable)"""
+    env_lets = {}
+    for st in user_nodes(fn):
+        if st["k"] == "Let" and st["pat"].get("k") == "Bind" and "Mut" not in st["pat"].get("mode", "") and "init" in st:
+            env_lets[st["pat"]["name"]] = st["init"]
+    env = dict(env)
+    for _ in range(6):
+        try:
+            return symeval.ev(e, env)
+        except symeval.NotConst as ex:
+            nm = str(ex).split()[-1].strip("`'\"")
+            if nm in env_lets and nm not in env:
+                env[nm] = _ev_with_lets(fn, env_lets[nm], env)
+            else:
+                raise
+    return symeval.ev(e, env)
+
+
 def _betas_table(facts, n):
     fn = facts.fn(P2 + "new")
     P = hirq.show_pat(fn["params"][0]["pat"])
     for x in hirq.walk(fn["hir"]):
         if x["k"] == "MethodCall" and x["name"] == "map" and x["args"] and x["args"][0]["k"] == "Closure":
             cl = x["args"][0]
-            rng = nf.nf(x["recv"], True)
-            if rng == "std::ops::Range{start:0, end:%s}" % P and nf.nf(cl["body"], True).find(P) >= 0 and hirq.show_pat(cl["params"][0]) != "_":
+            recv = nf.strip(x["recv"])
+            rev = False
+            while recv["k"] == "MethodCall" and recv["name"] in ("rev", "into_iter") and not recv["args"]:
+                rev = rev != (recv["name"] == "rev")
+                recv = nf.strip(recv["recv"])
+            rng = nf.nf(recv, True)
+            if rng == "std::ops::Range{start:0, end:%s}" % P and hirq.show_pat(cl["params"][0]) != "_":
                 v = hirq.show_pat(cl["params"][0])
-                return [symeval.ev(cl["body"], {P: n, v: t}) for t in range(n)]
+                order = list(range(n))[::-1] if rev else list(range(n))
+                try:
+                    return [_ev_with_lets(fn, cl["body"], {P: n, v: t}) for t in order]
+                except symeval.NotConst:
+                    return None
     # push-loop idiom: `let mut betas = Vec::with_capacity(m); for x in 0..m { [immutable lets;] betas.push(e(x)) }`
     R = resolver_of(fn)
     t = tree_of(fn)
